@@ -922,11 +922,55 @@ func confuse(s string) string {
 	return strings.NewReplacer("@", "`", "`", "@", "[", "{", "{", "[").Replace(s)
 }
 
+// longLabelBias > 0: one label in longLabelBias is a label at the DNS length limit.
+var longLabelBias = 90
+
+// longLabel: a label of 62, 63 (the DNS maximum), 64 or 61 octets over a tiny alphabet.
+func longLabel(r *hx.RNG) string {
+	n := hx.Pick(r, []int{63, 63, 63, 63, 63, 62, 62, 64, 61})
+	return mkLabel(hx.Pick(r, []string{"a", "b", "ab"}), n)
+}
+
+func mkLabel(unit string, n int) string {
+	return strings.Repeat(unit, n/len(unit)+1)[:n]
+}
+
 func pickLabel(r *hx.RNG) string {
+	if longLabelBias > 0 && r.Chance(1, longLabelBias) {
+		return longLabel(r)
+	}
 	if r.Chance(1, 7) {
 		return hx.Pick(r, edgeLabels)
 	}
 	return hx.Pick(r, alphabet)
+}
+
+// genLongLabels: rule sets and names in which every third label is at the length limit, at every
+// position, through the valued mix matcher, the domain matcher and the valued / value-less loaders.
+func genLongLabels(w *hx.Writer, id string, r *hx.RNG, maxRules int) {
+	old := longLabelBias
+	longLabelBias = 3
+	defer func() { longLabelBias = old }()
+	switch r.Intn(4) {
+	case 0:
+		var rules []rule
+		var ir []irule
+		for j := r.Range(1, 4); j > 0; j-- {
+			pat := genPattern(r, 2, 4, false)
+			if len(rules) > 0 && r.Bool() {
+				pat = pickLabel(r) + "." + rules[r.Intn(len(rules))].s
+			}
+			v := []int{r.Range(1, 9)}
+			rules = append(rules, rule{s: pat, v: v})
+			ir = append(ir, irule{kind: 2, pat: pat, v: v})
+		}
+		runSingle(w, id, 2, rules, genNames(r, ir, r.Range(2, 4), 4, false))
+	case 1:
+		genLoad(w, id, r, 4, 4)
+	default:
+		rs := genRuleSet(r, genDefault(r, false), 0, 5, 4, false)
+		runMix(w, id, rs.dflt, rs.rules, genNames(r, rs.intended, r.Range(2, 4), 4, false))
+	}
 }
 
 func genLabels(r *hx.RNG, maxDepth int) []string {
@@ -1656,6 +1700,90 @@ func main() {
 		}
 	}
 
+	mixIf := func(w *hx.Writer, cid string, dflt string, rules []rule, names []string) {
+		if o.Want(cid) {
+			runMix(w, cid, dflt, rules, names)
+		}
+	}
+	singleIf := func(w *hx.Writer, cid string, kind int, rules []rule, names []string) {
+		if o.Want(cid) {
+			runSingle(w, cid, kind, rules, names)
+		}
+	}
+	loadIf := func(w *hx.Writer, cid string, which int, dflt string, entries []string, text string, intended []irule, names []string) {
+		if o.Want(cid) {
+			runLoad(w, cid, which, dflt, entries, text, intended, names)
+		}
+	}
+	// label lengths 1, 2, 62, 63 (the DNS maximum), 64 at every position (leftmost, middle, rightmost)
+	// of rules and names, and names at the 253 / 255 octet limit
+	for _, n := range []int{1, 2, 62, 63, 64} {
+		for ui, unit := range []string{"a", "ab"} {
+			L := mkLabel(unit, n)
+			M := mkLabel("b", n)
+			id := fmt.Sprintf("cat:label:%d:%d", n, ui)
+			{
+				// one domain rule with the long label leftmost / in the middle / rightmost, as a valued set
+				mixIf(w, id+":pos", "", []rule{R("domain:"+L+".b.a", 1), R("domain:b."+M+".ab", 2), R("domain:a.b."+L, 3), R("domain:a", 4)},
+					[]string{L + ".b.a", "s." + L + ".b.a.", "x.y." + L + ".b.a", "S." + strings.ToUpper(L) + ".B.A", "b.a", "x" + L + ".b.a",
+						"s.b." + M + ".ab", "b." + M + ".ab.", M + ".ab", "s.a.b." + L, "a.b." + L, "b." + L, "s.a"})
+			}
+			{
+				// longest-match precedence with a long label in the chain, every insertion order of the chain
+				chain := []rule{R("domain:a", 1), R("domain:"+L+".a", 2), R("domain:b."+L+".a", 3), R("domain:"+M+".b."+L+".a", 4)}
+				names := []string{"s.a", L + ".a", "s." + L + ".a.", "b." + L + ".a", "s.b." + L + ".a", M + ".b." + L + ".a", "s.t." + M + ".b." + L + ".a", "x" + L + ".a"}
+				mixIf(w, id+":longest", "", chain, names)
+				mixIf(w, id+":longest:rev", "", []rule{chain[3], chain[2], chain[1], chain[0]}, names)
+			}
+			{
+				mixIf(w, id+":types", "", []rule{R("full:s."+L+".a", 1), R("domain:"+L+".a", 2), R("keyword:"+M, 4)},
+					[]string{"s." + L + ".a", "t.s." + L + ".a", "t." + L + ".a.", "s." + M + ".b", "x" + M + "x.b", "s." + M[1:] + ".b"})
+				mixIf(w, id+":types:re", "", []rule{R("regexp:b\\.a$", 3), R("regexp:^a\\.", 5), R("keyword:"+L, 4)},
+					[]string{"s." + L + ".b.a", "a." + L + ".b", L + ".s", "s." + M + ".b"})
+			}
+			{
+				singleIf(w, id+":single", 2, []rule{R(L+".b.a", 1), R("s."+L+".b.a", 2), R("b."+L, 3)},
+					[]string{L + ".b.a", "s." + L + ".b.a", "t.s." + L + ".b.a", "t." + L + ".b.a", "x.b." + L, "b." + L})
+				singleIf(w, id+":single:full", 1, []rule{R("s."+L+".a", 1)}, []string{"s." + L + ".a.", "t.s." + L + ".a", L + ".a"})
+			}
+			if ui == 0 {
+				for _, which := range []int{1, 2, 3, 4} {
+					val := func(v int) (string, []int) {
+						switch which {
+						case 2:
+							return " 10.0.0." + strconv.Itoa(v), []int{v}
+						case 3:
+							return " v" + strconv.Itoa(v), []int{v}
+						}
+						return "", []int{}
+					}
+					v1, i1 := val(1)
+					v2, i2 := val(2)
+					v3, i3 := val(3)
+					d := "domain"
+					if which == 2 || which == 3 {
+						d = "full"
+					}
+					loadIf(w, fmt.Sprintf("%s:load:%d", id, which), which, d, []string{"domain:a" + v1},
+						"domain:"+L+".a"+v2+"\ndomain:b."+L+".a"+v3+"\n",
+						[]irule{{2, "a", i1}, {2, L + ".a", i2}, {2, "b." + L + ".a", i3}},
+						[]string{"s.a.", "s." + L + ".a.", "t.s.b." + L + ".a.", "b." + L + ".a.", "x" + L + ".a."})
+				}
+			}
+		}
+	}
+	// names of 253 and 255 octets: four labels at or near the limit
+	{
+		A, B, C := mkLabel("a", 63), mkLabel("b", 63), mkLabel("ab", 63)
+		for i, last := range []string{mkLabel("a", 61), mkLabel("b", 63), "a"} {
+			id := fmt.Sprintf("cat:label:total:%d", i)
+			if o.Want(id) {
+				runMix(w, id, "", []rule{R("domain:"+last, 1), R("domain:"+C+"."+last, 2), R("domain:"+B+"."+C+"."+last, 3), R("full:"+A+"."+B+"."+C+"."+last, 4)},
+					[]string{A + "." + B + "." + C + "." + last, A + "." + B + "." + C + "." + last + ".", B + "." + B + "." + C + "." + last, A + "." + C + "." + last, A + "." + last, A + "." + B + "." + C})
+			}
+		}
+	}
+
 	// the scanner's 64 KiB line limit, exactly at and around it, through every loader: a rule
 	// before, the long line (a comment, or carrying a rule), rules after it
 	for which := 0; which <= 4; which++ {
@@ -1714,7 +1842,7 @@ func main() {
 			continue
 		}
 		r := hx.NewRNG(o.Seed, id)
-		switch c := r.Intn(24); {
+		switch c := r.Intn(26); {
 		case c < 11: // mix matcher, well-formed
 			rs := genRuleSet(r, genDefault(r, false), 0, maxRules, maxDepth, false)
 			runMix(w, id, rs.dflt, rs.rules, genNames(r, rs.intended, r.Range(2, 5), maxDepth, false))
@@ -1747,6 +1875,8 @@ func main() {
 			genLoad(w, id, r, maxRules, maxDepth)
 		case c < 21: // over-long lines and read faults
 			genLoadX(w, id, r, maxDepth)
+		case c < 23: // labels at the DNS length limit
+			genLongLabels(w, id, r, maxRules)
 		default: // domain sets assembled from members
 			genCompose(w, id, r, maxDepth)
 		}
